@@ -26,4 +26,7 @@ with cf.ThreadPoolExecutor(2) as ex:
         print("%-40s expect=%-9s rc=%s %s" % (name, e["expect"], rc, "OK" if rc == want else "MISMATCH"), flush=True)
         for l in (lines or [])[:5]: print("     " + l[:400], flush=True)
         res.append(dict(name=name, expect=e["expect"], rc=rc, ok=(rc == want), lines=(lines or [])[:5]))
-json.dump(res, open(os.path.join(here, "selftest_result.json"), "w"), indent=1)
+rp = os.path.join(here, "selftest_result.json")
+old = {r["name"]: r for r in (json.load(open(rp)) if os.path.exists(rp) else [])}
+old.update({r["name"]: r for r in res})
+json.dump(list(old.values()), open(rp, "w"), indent=1)
